@@ -97,7 +97,8 @@ def heldC (pc : CPc) (alk : List Nat) : List Mx :=
   | .iter p st prev nxt => heldIt st prev nxt ++ procHeld p alk
   | .body p k c => bodyHeld p k c ++ procHeld p alk
   | .close p k c =>
-    (match k with | .sigU | .unlockU => [(MCls.U, c)] | _ => []) ++ (match p with | .send => [(MCls.S, c)] | _ => [])
+    (match k with | .sigU | .unlockU => [(MCls.U, c)] | _ => []) ++ (match p with | .send => [(MCls.S, c)] | _ => []) ++
+      procHeld p alk
   | .nf st i =>
     match st with
     | .lockC => alk.map fun c => (MCls.S, c)
@@ -124,7 +125,7 @@ def refsC (pc : CPc) (alk : List Nat) : List Nat :=
   match pc with
   | .iter p st prev nxt => refsIt st prev nxt ++ procRefs p alk
   | .body p k c => bodyRefs p k c ++ procRefs p alk
-  | .close _ _ c => [c]
+  | .close p _ c => [c] ++ procRefs p alk
   | .nf st i =>
     (match st with
      | .lockC => alk
@@ -150,7 +151,7 @@ def refsOf (s : State) (t : Tid) : List Nat :=
 
 /-- the ghost of thread t is what its program counter says -/
 def LocalT (s : State) (t : Tid) : Prop :=
-  (∀ x, x ∈ (getG s t).held ↔ x ∈ heldOf s t) ∧ (∀ x, (getG s t).refs.count x = (refsOf s t).count x)
+  (∀ x, (getG s t).held.count x = (heldOf s t).count x) ∧ (∀ x, (getG s t).refs.count x = (refsOf s t).count x)
 
 def Local (s : State) : Prop := ∀ t, LocalT s t
 
